@@ -101,28 +101,40 @@ pub fn run_resize(seed: u64, tier: &str, out: &mut Out) {
         let mut w = *rng.pick(&[20u16, 33, 40, 80]);
         let mut rec = Recorder::new(4, w, false);
         let prefix: String = (0..rng.below(5)).map(|_| 'p').collect();
-        let pb = ProgressBar::with_draw_target(Some(100), ProgressDrawTarget::term_like(Box::new(rec.clone())));
-        pb.set_style(ProgressStyle::with_template("{prefix}{wide_bar}").unwrap().progress_chars("#>-"));
+        // a third of the bars are members of a MultiProgress (with a second member, sometimes a finished one that is dropped along the
+        // way: the width a member is laid out for is the terminal's width at that draw, whoever caches what); half use a wide message
+        let multi = rng.chance(1, 3);
+        let wide_msg = rng.chance(1, 2);
+        let mp = if multi { Some(indicatif::MultiProgress::with_draw_target(ProgressDrawTarget::term_like(Box::new(rec.clone())))) } else { None };
+        let pb = match &mp { Some(m) => m.add(ProgressBar::new(100)), None => ProgressBar::with_draw_target(Some(100), ProgressDrawTarget::term_like(Box::new(rec.clone()))) };
+        let mut other = mp.as_ref().map(|m| { let o = m.insert(0, ProgressBar::new(5)); o.set_style(ProgressStyle::with_template("o{pos}").unwrap()); o });
+        pb.set_style(ProgressStyle::with_template(if wide_msg { "{prefix}{wide_msg}|" } else { "{prefix}{wide_bar}" }).unwrap().progress_chars("#>-"));
         pb.set_prefix(prefix.clone());
-        let mut case = format!("NOMODEL RESIZE w={w} prefix={}", prefix.len());
+        let mut case = format!("NOMODEL RESIZE w={w} prefix={} multi={multi} wide_msg={wide_msg}", prefix.len());
         let mut verdict = "ok".to_string();
         let k = rng.range(2, 12);
         for _ in 0..k {
             { rec.st.lock().unwrap().ops.clear(); }
-            match rng.below(6) {
+            let choice = rng.below(6);
+            // (a frame that another member causes shows this member's stored line, laid out when it last drew: only its own draws are judged)
+            let own = choice >= 3;
+            match choice {
                 0 | 1 => { w = *rng.pick(&[10u16, 20, 33, 40, 57, 80, 120]); rec.set_width(w); case += &format!(" ; resize {w}"); }
-                2 => { w = *rng.pick(&[15u16, 30, 60]); rec = Recorder::new(4, w, false); pb.set_draw_target(ProgressDrawTarget::term_like(Box::new(rec.clone()))); case += &format!(" ; retarget {w}"); }
+                2 if !multi => { w = *rng.pick(&[15u16, 30, 60]); rec = Recorder::new(4, w, false); pb.set_draw_target(ProgressDrawTarget::term_like(Box::new(rec.clone()))); case += &format!(" ; retarget {w}"); }
+                2 => { match rng.below(3) { 0 => { if let Some(o) = &other { o.finish(); } case += " ; other-finish"; } 1 => { if let Some(o) = other.take() { drop(o); } case += " ; other-drop"; } _ => { if let Some(o) = &other { o.inc(1); } case += " ; other-inc"; } } }
                 3 => { case += " ; inc"; pb.inc(1); }
                 4 => { case += " ; tick"; pb.tick(); }
                 _ => { case += " ; msg"; pb.set_message("m"); }
             }
-            if let Some(line) = last_line(&rec) {
-                if line.is_empty() { continue; }
+            // the member's own line is the last one of the frame (the other member is inserted above it)
+            if let (true, Some(line)) = (own || !multi, last_line(&rec)) {
+                if line.is_empty() || (multi && !line.contains('|') && wide_msg) || (multi && line.starts_with('o')) { continue; }
                 let cols = console::measure_text_width(&line);
                 if verdict == "ok" && cols != w as usize { verdict = format!("FAIL wide-bar-width frame has {cols} columns on a terminal of {w}: {line:?}"); }
             }
         }
         pb.abandon();
+        std::mem::forget(other); std::mem::forget(mp);
         out.emit(&case, &format!(" ORACLE {verdict}"));
     }
 }
